@@ -12,7 +12,13 @@ import types
 
 from .lanes import LaneUnavailable
 
-SCALARS = {"unsigned char", "char", "int", "long", "bint", "double", "Py_ssize_t", "float"}
+_INTS = {"char": (8, True), "signed char": (8, True), "unsigned char": (8, False), "short": (16, True), "unsigned short": (16, False),
+         "int": (32, True), "signed int": (32, True), "unsigned int": (32, False), "unsigned": (32, False),
+         "long": (64, True), "signed long": (64, True), "unsigned long": (64, False), "long long": (64, True),
+         "unsigned long long": (64, False), "Py_ssize_t": (64, True), "ssize_t": (64, True), "size_t": (64, False),
+         "int8_t": (8, True), "uint8_t": (8, False), "int16_t": (16, True), "uint16_t": (16, False), "int32_t": (32, True),
+         "uint32_t": (32, False), "int64_t": (64, True), "uint64_t": (64, False), "Py_UCS4": (32, False)}      # LP64
+SCALARS = set(_INTS) | {"bint", "double", "float"}
 OBJ = {"str", "bytes", "bytearray", "array.array", "object", "list", "dict"}
 
 
@@ -35,25 +41,30 @@ def _co(t, v):
         elif isinstance(v, (bytes, bytearray)):
             v = v[0]
         return _wrap(v, 8, t == "char")
-    if t == "int":
+    if t in _INTS:
+        bits, signed = _INTS[t]
         if isinstance(v, float):
             v = math.trunc(v)
-        return _wrap(v, 32, True)
-    if t in ("long", "Py_ssize_t"):
-        if isinstance(v, float):
-            v = math.trunc(v)
-        return _wrap(v, 64, True)
+        elif isinstance(v, str) and t == "Py_UCS4":
+            v = ord(v)
+        return _wrap(v, bits, signed)
     if t == "bint":
         return bool(v)
-    if t in ("double", "float"):
+    if t == "double":
         return float(v)
+    if t == "float":
+        import struct
+        try:
+            return struct.unpack("f", struct.pack("f", float(v)))[0]
+        except OverflowError:
+            return math.copysign(float("inf"), v)
     return v
 
 
 _SIG = re.compile(r"^(\s*)(cpdef|cdef|def)\s+(inline\s+)?(.*?)(\w+)\s*\((.*)\)\s*:\s*$")
 _DECL = re.compile(r"^(\s*)cdef\s+(.+?)\s*$")
 _ASSIGN = re.compile(r"^(\s*)([A-Za-z_]\w*)\s*(\+|-|\*|//|/|\^|\||&|>>|<<)?=(?!=)\s*(.+?)\s*$")
-_CAST = re.compile(r"<\s*(unsigned char|char|int|long|double|float|bint)\s*>\s*(.+)$")
+_CAST = re.compile(r"<\s*(" + "|".join(sorted(SCALARS, key=len, reverse=True)) + r")\s*>\s*(.+)$")
 
 
 def _split_type(decl):
@@ -130,9 +141,9 @@ def transliterate(src):
                 if indent:
                     ftypes[name] = ctype
                 out.append("%s%s = _co(%r, %s)" % (indent, name, ctype, init) if init is not None else "%spass" % indent)
-            elif re.fullmatch(r"(unsigned char|long|char|int)\[:\]", ctype):
+            elif ctype.endswith("[:]") and ctype[:-3].strip() in _INTS:
                 out.append("%s%s = %s" % (indent, name, init) if init is not None else "%spass" % indent)
-            elif re.fullmatch(r"(long|int)\[\d+\]", ctype):
+            elif re.fullmatch(r"(.+?)\[\d+\]", ctype) and re.fullmatch(r"(.+?)\[\d+\]", ctype).group(1).strip() in _INTS:
                 out.append("%s%s = list(%s)" % (indent, name, init) if init is not None else "%spass" % indent)
             elif ctype in OBJ or ctype == "":
                 out.append("%s%s = %s" % (indent, name, init) if init is not None else "%spass" % indent)
